@@ -486,6 +486,12 @@ func (x *Exec) mergeVal(m *State, c Term, va, vb Val, hint string) (Val, bool) {
 			return m.def(hint, tIte(c, p, q))
 		}
 		return ElemPtr{Arr: f(a.Arr, b.Arr), Idx: f(a.Idx, b.Idx), Elem: a.Elem}, true
+	case ElemFieldPtr:
+		b, ok := vb.(ElemFieldPtr)
+		if !ok || a.Field != b.Field || a.Arr.S != b.Arr.S || a.Idx.S != b.Idx.S {
+			return va, false
+		}
+		return a, true
 	case ArrPtr:
 		b, ok := vb.(ArrPtr)
 		if !ok || a.Ref.S != b.Ref.S {
